@@ -17,12 +17,12 @@
   A number, a measurement and a matrix literal are one lexeme each; their texts are the subject
   of C15.
 
-  What is proved here is the printer's side of the round trip (order, completeness, separation).
-  The scanner's side needed to conclude — that the scan of a concatenation of separated lexemes
-  is the concatenation of the scans — is OPEN (`C18_roundtrip`, see the end of the file).
+  The round trip itself (`C18_roundtrip`) is proved from the definition of the scanner
+  (Calc/Proofs/PrintRoundtrip.lean), under explicit hypotheses on the lexemes of the tree.
 -/
-import Calc.Proofs.PrintExpr
+import Calc.Proofs.PrintRoundtrip
 import Calc.Generated.UnicodeClasses
+import Calc.Props.C05
 namespace Calc.Props.C18
 open Calc
 
@@ -169,21 +169,76 @@ theorem C18_matrix_literal (t : Tok S) (rows : List (List (Expr S))) :
     | cons a as ih => simp [showRows, hargs, ih]
   simp [showExpr, hrows]
 
-/- OPEN — C18_roundtrip (T2): for a body `e` produced by the parser (so `e.OpLexemes`), without
-   matrix literals and with finite non-negative real literals,
-       scan cfg (showExpr e) = .ok toks  ∧  toks.map (·.kind) = the token kinds of `e` in order.
-   The printer's half is `C18_printer_structure` + `C18_adjacent_safe` + `C18_op_char_boundary`;
-   the missing half is the compositionality of `scanLoop` over `render` (scanner theorems of
-   Calc/Proofs/Scan*.lean) and the fact that `Kernel.fmtRe` of a literal is a `NumberText` that
-   reads back as the literal (a hypothesis on the formatter of reals, cf. `Spec.FmtSpec`).
-   Known limits of the statement, true of the implementation and of the model alike: a literal whose
-   value prints as `inf` or `NaN` reads back as an identifier; a number node holding a value with two
-   non-zero parts prints as `a + bi` without parentheses (the parser never builds one). -/
+/-! ### the round trip -/
+
+/-- **C18 (round trip, T2).** Reading the printed body again gives the body's tokens: for a tree
+    whose lexemes are what the scanner makes of them (`Expr.TreeOK cfg`, below) and a scanner whose
+    alphanumeric class contains neither an operator character nor the blank, scanning `showExpr e`
+    succeeds and the kinds of the tokens — number values, unit, identifier names included — are
+    `Expr.kinds e`: the kinds of the tree's tokens in source order.
+
+    `Expr.TreeOK cfg e` says, node by node:
+    * a unary operator, and a binary operator other than `dot`/`cross`, is a token made of one
+      operator character (`OpTok`); `dot`/`cross` is that or a word the scanner reads as that
+      operator (`WordLex`: begins with an identifier-start character, consists of
+      identifier-continue characters, and the keyword table gives the operator's kind);
+    * an identifier's lexeme is such a word, read as the identifier token's own kind;
+    * `as` is a keyword of the table, and the printed symbol of every unit mentioned is a word
+      that the table reads as that unit;
+    * the text printed for a number literal `z` is a number literal of value `z`
+      (`NumLit`: begins with a digit, is what the scanner's number rule consumes in front of
+      anything that is no digit, `.` or `e`, and its decimal value is `z`); a measurement literal
+      has such a number and not both parts non-zero;
+    * there is no matrix literal. -/
+theorem C18_roundtrip (cfg : ScanCfg S) (hop : ∀ c ∈ opChars, cfg.isAlnum c = false)
+    (hblank : cfg.isAlnum ' ' = false) (e : Expr S) (he : e.TreeOK cfg) :
+    ∃ toks, scan cfg (showExpr e) = .ok toks ∧ toks.map (·.kind) = e.kinds :=
+  scan_showExpr cfg hop hblank e he
+
+/-- … in any context: in front of any rest that begins with a character that ends words and
+    numbers (as `)`, `,`, a blank, a line break do), the scanner reads the tokens of the body and
+    continues with the rest. -/
+theorem C18_roundtrip_in_context (cfg : ScanCfg S) (hop : ∀ c ∈ opChars, cfg.isAlnum c = false)
+    (hblank : cfg.isAlnum ' ' = false) (e : Expr S) (he : e.TreeOK cfg) :
+    ScansAs cfg (showExpr e) e.kinds (stop cfg) :=
+  scansAs_showExpr cfg hop hblank e he
+
+/-- **C18 (units, on the shipped keyword table).** The printed symbol of every unit other than
+    the yard is a spelling that the shipped keyword table reads as that very unit … -/
+theorem C18_unit_symbols_read_back_partial : ∀ u : Unit, u ≠ .distance .yard →
+    C05.lookup (Gen.unitSymbol u) = some (.unit u) := by
+  have h : ∀ u ∈ Unit.all, u ≠ .distance .yard → C05.lookup (Gen.unitSymbol u) = some (.unit u) := by
+    decide +kernel
+  exact fun u => h u (C05.unit_all_complete u)
+
+/- OPEN (false on the current tree — known finding K2):
+     theorem C18_unit_symbols_read_back : ∀ u, C05.lookup (Gen.unitSymbol u) = some (.unit u)
+   The hypothesis `WordLex cfg (unitSymbol u) (.unit u)` of `C18_roundtrip` therefore FAILS for
+   `u = yard` with the shipped table: a body that mentions yards is listed with the symbol `yd`,
+   which reads back as feet. -/
+
+/-- … the negation at the witness: the yard's printed symbol reads back as the foot. -/
+theorem C18_yard_counterexample :
+    C05.lookup (Gen.unitSymbol (.distance .yard)) = some (.unit (.distance .foot)) := by
+  decide +kernel
+
+/-- the keywords the printer emits are in the shipped table -/
+theorem C18_keywords_read_back :
+    C05.lookup "as" = some .as_ ∧ C05.lookup "dot" = some .dot ∧ C05.lookup "cross" = some .cross := by
+  decide +kernel
+
+/- Known limits of `C18_roundtrip`, true of the implementation and of the model alike (they are
+   hypotheses of `Expr.TreeOK`, not conclusions): a literal whose value prints as `inf` or `NaN`,
+   or in a form the scanner's number rule does not read back to the same value, is not a `NumLit`;
+   a number node holding a value with two non-zero parts prints as `a + bi` without parentheses
+   (the parser never builds one); matrix literals are excluded (their layout, with padding blanks
+   and line breaks, is the subject of C15). -/
 
 /-! ### the hypotheses are satisfiable -/
 
 /-- the shipped class table of `char::is_alphanumeric` contains none of the operator characters -/
-example : ∀ c ∈ opChars, (Gen.alnumRanges.any fun r => r.1 ≤ c.toNat && c.toNat ≤ r.2) = false := by
+example :
+    ∀ c ∈ opChars, (Gen.alnumRanges.toList.any fun r => r.1 ≤ c.toNat && c.toNat ≤ r.2) = false := by
   decide +kernel
 
 /-- `Expr.OpLexemes` holds of the tree of `-(a+2)!`, and its printed text is that -/
@@ -199,5 +254,43 @@ example (z : S) (h : complexToString z = ['2']) :
   · simp only [Expr.OpLexemes]
     exact ⟨by decide, by decide, fun _ => by decide, trivial, trivial⟩
   · simp [showExpr, Tok.tag, Kind.tag, h]
+
+
+/-- a run of digits is a number literal (`NumLit`) -/
+example : NumLit (S := S) "42".toList (Kernel.ofDecimal 42 0) :=
+  numLit_digits "42".toList (by decide) (by decide)
+
+/-- `Expr.TreeOK` holds of the tree of `-(a+2)!` when `a` is alphanumeric and no keyword and the
+    literal prints as `2`; so its printed text scans to the seven kinds `- ( a + 2 ) !` -/
+example (cfg : ScanCfg S) (hop : ∀ c ∈ opChars, cfg.isAlnum c = false)
+    (hblank : cfg.isAlnum ' ' = false) (ha : cfg.isAlnum 'a' = true) (hk : cfg.keyword ['a'] = none)
+    (h2 : complexToString (Kernel.ofDecimal 2 0 : S) = ['2']) :
+    let minus : Tok S := ⟨.minus, ['-'], 1, 1⟩
+    let plus : Tok S := ⟨.plus, ['+'], 1, 4⟩
+    let bang : Tok S := ⟨.bang, ['!'], 1, 7⟩
+    let lp : Tok S := ⟨.lparen, ['('], 1, 2⟩
+    let a : Tok S := ⟨.ident ['a'], ['a'], 1, 3⟩
+    let e : Expr S := .unary minus (.unary bang (.grouping lp .grouping
+      (.binary (.ident a) plus (.number (Kernel.ofDecimal 2 0)))))
+    ∃ toks, scan cfg "-(a+2)!".toList = .ok toks ∧
+      toks.map (·.kind) =
+        [.minus, .lparen, .ident ['a'], .plus, .number (Kernel.ofDecimal 2 0), .rparen, .bang] := by
+  intro minus plus bang lp a e
+  have hOK : e.TreeOK cfg := by
+    simp only [e, Expr.TreeOK]
+    refine ⟨⟨'-', rfl, by decide, by simp [singleKind, minus]⟩, ⟨'!', rfl, by decide, by simp [singleKind, bang]⟩, ?_, ?_, ?_⟩
+    · show OpTok plus
+      exact ⟨'+', rfl, by decide, by simp [singleKind, plus]⟩
+    · refine ⟨⟨'a', [], rfl, by decide⟩, ?_, ?_⟩
+      · intro d hd; simp only [a, List.mem_singleton] at hd; subst hd; simp [isIdentCont, ha]
+      · simp [wordKindOf, a, hk]
+    · rw [h2]
+      exact numLit_digits ['2'] (by decide) (by decide)
+  have hshow : showExpr e = "-(a+2)!".toList := by
+    simp [e, minus, plus, bang, showExpr, Tok.tag, Kind.tag, h2]
+  obtain ⟨toks, h1, h3⟩ := C18_roundtrip cfg hop hblank e hOK
+  refine ⟨toks, hshow ▸ h1, ?_⟩
+  rw [h3]
+  simp [e, minus, plus, bang, a, Expr.kinds, Tok.tag, Kind.tag, openKind, closeKind]
 
 end Calc.Props.C18
